@@ -247,11 +247,43 @@ fn check_execute(spec: &SchemeSpec, q: &Query, f: &Filter, ctx: &ExecutionContex
             format!("`{}`: engine {got}, reference {want}; lhs values {:?}; list state {:?}", q.text, vals.iter().map(|x| x.render()).collect::<Vec<_>>(), m.lists[idx]),
         ));
     }
-    if got_calls != want_calls {
+    // The statement fixes *what* the matcher is asked (list, name, value, per element) and that the answer is
+    // the matcher's; it does not forbid short-circuiting any()/all(). So: every observed query must be one of the
+    // predicted ones, in order (a subsequence), and the observed queries must suffice to determine the result.
+    let mut wi = 0usize;
+    let mut answers: Vec<bool> = Vec::new();
+    let set = m.lists[idx].as_ref();
+    for g in &got_calls {
+        while wi < want_calls.len() && want_calls[wi] != *g {
+            wi += 1;
+        }
+        if wi == want_calls.len() {
+            return Err(v(
+                "matcher-calls-differ",
+                class,
+                format!("`{}`: matcher was asked {:?}, which is not (in order) among the predicted queries {:?}", q.text, got_calls, want_calls),
+            ));
+        }
+        wi += 1;
+        answers.push(set.and_then(|s| s.get(&g.name)).is_some_and(|s| s.contains(&g.value)));
+    }
+    let all_asked = got_calls.len() == want_calls.len();
+    let sufficient = if kind != ListKind::Set {
+        true
+    } else if !q.lhs.each {
+        all_asked
+    } else if q.all {
+        if want { all_asked } else { answers.iter().any(|a| !*a) }
+    } else if want {
+        answers.iter().any(|a| *a)
+    } else {
+        all_asked
+    };
+    if !sufficient {
         return Err(v(
             "matcher-calls-differ",
             class,
-            format!("`{}`: matcher was asked {:?}, reference predicts {:?}", q.text, got_calls, want_calls),
+            format!("`{}` = {got}: the matcher was only asked {:?} of the predicted {:?}, which cannot determine that answer", q.text, got_calls, want_calls),
         ));
     }
     Ok(())
@@ -517,13 +549,16 @@ fn run(ctx: &RunCtx) -> Result<(), Violation> {
                     continue;
                 }
                 let nth = 1 + choose(want_calls.len(), "boomq.nth") as u32;
+                let fired_before = seams::fired_panics().len();
                 seams::arm_panic("list.match", nth);
                 let r = catch_unwind(AssertUnwindSafe(|| f.execute(&real)));
                 seams::disarm_all();
+                let fired = seams::fired_panics().len() > fired_before;
                 seams::harness(|h| h.calls.clear());
                 kernel::count("op.matcher_panics");
                 crate::tr!("  execute `{}` with the matcher armed to panic at query {nth} -> {}", q.text, if r.is_err() { "unwound" } else { "returned" });
-                if r.is_ok() {
+                // (a short-circuiting evaluation may legitimately never reach query `nth`)
+                if r.is_ok() && fired {
                     return Err(v("matcher-panic-swallowed", "", format!("`{}`: the matcher panicked at query {nth} but execute returned {:?}", q.text, r)));
                 }
                 check_state(&spec, &scheme, &real, &model, "matcher-panicked")?;
